@@ -332,12 +332,15 @@ Definition rle_prepend_modify (r : rle) (a : oz) (n : Z) : rle :=
   | (al, run) :: t => if oz_eqb a al then (a, run + n) :: t else (a, n) :: r
   end.
 
-Fixpoint rle_append_modify_gen {A} (eqb : A -> A -> bool) (r : list (A * Z)) (a : A) (n : Z) : list (A * Z) :=
+Fixpoint rle_append_core {A} (eqb : A -> A -> bool) (r : list (A * Z)) (a : A) (n : Z) : list (A * Z) :=
   match r with
   | [] => [(a, n)]
   | [(la, lr)] => if eqb la a then [(a, lr + n)] else [(la, lr); (a, n)]
-  | x :: t => x :: rle_append_modify_gen eqb t a n
+  | x :: t => x :: rle_append_core eqb t a n
   end.
+(* "if not r: return": a zero-length run is ignored *)
+Definition rle_append_modify_gen {A} (eqb : A -> A -> bool) (r : list (A * Z)) (a : A) (n : Z) : list (A * Z) :=
+  if n =? 0 then r else rle_append_core eqb r a n.
 Definition rle_append_modify (r : rle) (a : oz) (n : Z) : rle := rle_append_modify_gen oz_eqb r a n.
 
 Definition rle_join_modify (r r2 : rle) : rle :=
